@@ -21,12 +21,16 @@ sh("git -C %s checkout -- ." % wt)
 demo_src = open(os.path.join(src, "demo.cpp")).read()
 head = "\n".join(demo_src.splitlines()[:40])
 extra = sorted(set(re.findall(r"(/tmp/mut_%s/rkcommon/\S+?\.cpp)" % pid.lower(), head)))
-opt = re.search(r"g\+\+[^\n]*?(-O\d)", head)
+gline = next((l for l in head.splitlines() if "g++" in l), "")
+extra = sorted(set(re.findall(r"(/tmp/mut_%s/rkcommon/\S+?\.cpp)" % pid.lower(), gline))) or extra
+opt = re.search(r"(-O\d)", gline)
 flags = "-std=c++11 %s -I%s -I%s/_b -I%s/.cache/inc -pthread" % (opt.group(1) if opt else "", wt, wt, ROOT)
-if "-ltbb" in head: flags += " -ltbb"
+# backend / configuration switches and libraries named on the demo's own compile line
+flags += " " + " ".join(t for t in gline.split() if re.match(r"-(D\w+(=\S+)?|f[a-z-]+(=\S+)?|m[a-z0-9.-]+)$", t))
+libs = " ".join(t for t in gline.split() if re.match(r"-l\w+$", t))
 def demo(tag):
-    exe = "/tmp/seed_demo_%s_%s_%s" % (pid, k, tag)
-    rc, out = step("compile demo (%s)" % tag, "g++ %s %s/demo.cpp %s -o %s" % (flags, src, " ".join(extra), exe))
+    exe = "/tmp/seed_demo_%s_%s_%s" % (pid, k, tag.replace(" ", "_"))
+    rc, out = step("compile demo (%s)" % tag, "g++ %s %s/demo.cpp %s -o %s %s" % (flags, src, " ".join(extra), exe, libs))
     if rc != 0:
         return None, out
     rc, out = step("run demo (%s)" % tag, "cd %s && timeout 600 %s" % (src, exe))
@@ -39,7 +43,7 @@ if rc != 0:
     ok = False
 rc1, _ = demo("with change") if ok else (None, "")
 if ok:
-    rc, out = step("build with change", "cmake -G Ninja -S %s -B %s/_b -DCMAKE_BUILD_TYPE=RelWithDebInfo -DRKCOMMON_TASKING_SYSTEM=TBB >/dev/null && cmake --build %s/_b -j16 2>&1 | tail -3" % (wt, wt, wt))
+    rc, out = step("build with change", "cmake -G Ninja -S %s -B %s/_b -DCMAKE_BUILD_TYPE=RelWithDebInfo -DRKCOMMON_TASKING_SYSTEM=TBB >/dev/null && cmake --build %s/_b -j6 2>&1 | tail -3" % (wt, wt, wt))
     if rc != 0: ok = False
     rc, out = step("pinned tests with change", "ctest --test-dir %s/_b -j8 --timeout 900 2>&1 | tail -4" % wt)
     tests_ok = rc == 0 and "100% tests passed" in out
